@@ -94,6 +94,21 @@ def validate_tokio_model():
     return ok
 
 
+def validate_path_model():
+    d = VERIF / "models" / "validate_path"
+    if not d.exists():
+        return True
+    env = dict(ENV)
+    env["CARGO_TARGET_DIR"] = str(VERIF / ".cache" / "validate-path-target")
+    p = subprocess.run(["cargo", "test", "--offline"], cwd=d, env=env, stdout=subprocess.PIPE,
+                       stderr=subprocess.STDOUT, text=True)
+    ok = p.returncode == 0 and "test result: ok. 1 passed" in p.stdout
+    log("std::path model differential test vs std::path (all normalised paths up to CAP bytes):", "ok" if ok else "FAILED")
+    if not ok:
+        sys.stdout.write(p.stdout[-4000:])
+    return ok
+
+
 def warm_kani():
     import vcheck
     hs = vcheck.discover()
@@ -105,13 +120,16 @@ def warm_kani():
     base = Path("/var/tmp/turmoil-verif.setup.%d" % os.getpid())
     try:
         for (crate, feats), h in seen.items():
-            g = "core" if crate == "turmoil" else "leaf"
+            g = "core" if crate == "turmoil" else ("fsm" if crate == "turmoil-fs" else "leaf")
             ov = base / g
             if not ov.exists():
                 members = {crate} | ({"turmoil-fs"} if crate == "turmoil-io-uring" else set())
                 if g == "leaf":
-                    members = {x["crate"] for x in hs if x["crate"] != "turmoil"}
-                vcheck.make_overlay(ov, sorted(members), tokio_model=(g == "core" and vcheck.tokio_model_needed("turmoil")))
+                    members = {x["crate"] for x in hs if x["crate"] not in ("turmoil", "turmoil-fs")}
+                    if "turmoil-io-uring" in members:
+                        members.add("turmoil-fs")
+                vcheck.make_overlay(ov, sorted(members), tokio_model=(g == "core" and vcheck.tokio_model_needed("turmoil")),
+                                    path_model=(g == "fsm"))
             tgt = vcheck.CACHE / ("target-%s-%s" % (crate, __import__("re").sub(r"[^a-z0-9]", "_", feats) or "default"))
             if tgt.exists():
                 shutil.rmtree(tgt)
@@ -133,6 +151,7 @@ def main():
     (VERIF / ".cache").mkdir(exist_ok=True)
     ok = validate_models()
     ok = validate_tokio_model() and ok
+    ok = validate_path_model() and ok
     if not ok:
         log("model validation FAILED")
         return 1
